@@ -5,15 +5,43 @@ import Driver.C11
 namespace Driver.C13
 open Rustic.Streamer Driver
 
+/-- decimal digits only (`String.toNat?` also accepts `_` separators; the harness does not) -/
+def num? (s : String) : Option Nat := if !s.isEmpty && s.all Char.isDigit then s.toNat? else none
+
+/-- most labels one forest / root list may expand to (as in the harness) -/
+def maxLabels : Nat := 200000
+
+/-- a label `7` or a range `3-9` (both ends included) -/
+def parseItem (x : String) : Option (List Nat) :=
+  match x.splitOn "-" with
+  | [a] => (num? a).map ([·])
+  | [a, b] => do
+    let a ← num? a
+    let b ← num? b
+    if a > b || b - a ≥ maxLabels then none else pure ((List.range (b - a + 1)).map (· + a))
+  | _ => none
+
+/-- labels / ranges separated by `sep` -/
+def parseLabelList (s : String) (sep : String) : Option (List Nat) := do
+  let ls ← (s.splitOn sep).mapM parseItem
+  let l := ls.flatten
+  if l.length ≥ maxLabels then none else pure l
+
+/-- `<ids>=<children>;…`: `ids` a label or a range (every tree of the range has the same sub-tree list) -/
 def parseForest (s : String) : Option (List (Nat × List Nat)) :=
-  if s = "-" then some [] else
-  (s.splitOn ";").mapM fun t =>
+  if s = "-" then some [] else do
+  let gs ← (s.splitOn ";").mapM fun t =>
     match t.splitOn "=" with
-    | [id, cs] => do
-      let id ← id.toNat?
-      let cs ← if cs = "" then some [] else (cs.splitOn ".").mapM String.toNat?
-      pure (id, cs)
+    | [ids, cs] => do
+      let ids ← parseItem ids
+      let cs ← if cs = "" then some [] else parseLabelList cs "."
+      if ids.length * (max cs.length 1) > 4 * maxLabels then none else
+      pure (ids.map (fun i => (i, cs)))
     | _ => none
+  let l := gs.flatten
+  if l.length > maxLabels then none else pure l
+
+def parseRoots (s : String) : Option (List Nat) := if s = "-" then some [] else parseLabelList s ","
 
 def insertNat (x : Nat) : List Nat → List Nat
   | [] => [x]
@@ -37,11 +65,18 @@ def validPool (s : String) : Bool :=
   | some n => n ≤ 64 && num.all Char.isDigit && (!g || n ≥ 1)
   | none => false
 
+/-- `r<ms>` (ms ≤ 1000): slow pack writes and a repack-all + fast-repack prune — how the packs are rewritten does not change
+    what a snapshot references, so the model ignores it too -/
+def validRepack (s : String) : Bool :=
+  s.startsWith "r" && (match num? (s.drop 1).toString with | some ms => ms ≤ 1000 | none => false)
+
 def validRun (t : String) : Option Unit :=
   match t.splitOn "." with
-  | [a, b, c] => if a.toNat?.isSome && b.toNat?.isSome && c.toNat?.isSome then some () else none
+  | [a, b, c] => if (num? a).isSome && (num? b).isSome && (num? c).isSome then some () else none
   | [a, b, c, p] =>
-    if a.toNat?.isSome && b.toNat?.isSome && c.toNat?.isSome && validPool p then some () else none
+    if (num? a).isSome && (num? b).isSome && (num? c).isSome && validPool p then some () else none
+  | [a, b, c, p, r] =>
+    if (num? a).isSome && (num? b).isSome && (num? c).isSome && validPool p && validRepack r then some () else none
   | _ => none
 
 /-- `seed`, `seed.pool` or `seed.pool.watchdog-seconds` -/
@@ -59,7 +94,7 @@ def validRuns (s : String) : Option Nat :=
 
 def handle : List String → String
   | ["stream", seed, forest, roots] =>
-    match validSeed seed, parseForest forest, Driver.C11.parseLabels roots with
+    match validSeed seed, parseForest forest, parseRoots roots with
     | true, some forest, some roots =>
       let children (id : Nat) : List Nat := ((forest.find? (·.1 = id)).map (·.2)).getD []
       -- any delivery order yields the same set (Props.C13.treeStreamerOnce_any_order); take the oldest first
@@ -77,6 +112,11 @@ def handle : List String → String
     | some n, some _ => refCounts b n
     | _, _ => "bad-op"
   | ["chk", ms] => if ms.toNat?.isSome then "ok errors>0" else "bad-op"
+  | ["snaps", seed, n] =>
+    -- n snapshots with pairwise different, complete root trees: `check` finds nothing, whatever the schedule
+    match validSeed seed, num? n with
+    | true, some n => if 1 ≤ n && n ≤ 20000 then s!"ok snaps={n}" else "bad-op"
+    | _, _ => "bad-op"
   | _ => "bad-op"
 
 end Driver.C13
